@@ -210,6 +210,7 @@ theorem divStep_inv (w : Nat) (hw : 0 < w) (numer denom : List Nat) (hl : numer.
   have hcmp := cmpU_spec (2 ^ w) (shl1c w r b) denom (by rw [hr2l, hl]) hr2w hd
   rw [hD, hr2v] at hcmp
   obtain ⟨hge, hlt⟩ := div_step_nat D P b hDpos hb1
+  unfold DivInv
   rw [hP]
   rcases Nat.lt_or_ge (2 * (P % D) + b) D with hc | hc
   · have : (cmpU (shl1c w r b) denom != .lt) = false := by
@@ -223,12 +224,15 @@ theorem divStep_inv (w : Nat) (hw : 0 < w) (numer denom : List Nat) (hl : numer.
       rw [hr2v, e2]
   · have : (cmpU (shl1c w r b) denom != .lt) = true := by
       rw [hcmp]
-      have := Nat.compare_ne_lt.2 hc
-      cases h : compare (2 * (P % D) + b) D <;> simp_all
+      have hne := Nat.compare_ne_lt.2 hc
+      cases h : compare (2 * (P % D) + b) D
+      · exact absurd h hne
+      · rfl
+      · rfl
     rw [this]
     obtain ⟨e1, e2⟩ := hge hc
     have hclear : (val (2 ^ w) q / 2 ^ k) % 2 = 0 := by
-      rw [hqv, Nat.pow_succ, ← Nat.mul_assoc, Nat.mul_div_cancel _ (Nat.two_pow_pos k)]
+      rw [hqv, Nat.pow_succ, ← Nat.mul_assoc, Nat.mul_right_comm, Nat.mul_div_cancel _ (Nat.two_pow_pos k)]
       omega
     obtain ⟨hsv, hsw⟩ := setBit_spec w hw q hqw k (by rw [hql]; exact hk) hclear
     obtain ⟨hsl, hsubw⟩ := sub_length_wf (2 ^ w) hB1 (shl1c w r b) denom (by rw [hr2l, hl]) hr2w hd
@@ -243,3 +247,96 @@ theorem divStep_inv (w : Nat) (hw : 0 < w) (numer denom : List Nat) (hl : numer.
       generalize (2 ^ w) ^ numer.length = M at *
       have : 2 * (P % D) + b + M - D = (2 * (P % D) + b - D) + M := by omega
       rw [this, Nat.add_mod_right, Nat.mod_eq_of_lt (by omega)]
+
+/-! ### the bit loop -/
+
+theorem foldl_range_reverse_inv {α : Type} (f : α → Nat → α) (Inv : Nat → α → Prop) (m : Nat)
+    (step : ∀ k a, k < m → Inv (k + 1) a → Inv k (f a k)) (init : α) (h : Inv m init) :
+    Inv 0 ((List.range m).reverse.foldl f init) := by
+  induction m generalizing init with
+  | zero => simpa using h
+  | succ m ih =>
+    rw [List.range_succ, List.reverse_append, List.reverse_singleton, List.singleton_append, List.foldl_cons]
+    exact ih (fun k a hk => step k a (by omega)) _ (step m init (by omega) h)
+
+theorem divModU_nonzero (w : Nat) (numer denom : List Nat) (h : isZero denom = false) :
+    divModU w numer denom =
+      (true, ((List.range (numer.length * w)).reverse.foldl (divStep w numer denom) (zero numer.length, zero numer.length)).1,
+        ((List.range (numer.length * w)).reverse.foldl (divStep w numer denom) (zero numer.length, zero numer.length)).2) := by
+  simp only [divModU, h]
+  rfl
+
+theorem divModU_inv (w : Nat) (hw : 0 < w) (numer denom : List Nat) (hl : numer.length = denom.length)
+    (hn : Wf (2 ^ w) numer) (hd : Wf (2 ^ w) denom) (hd0 : val (2 ^ w) denom ≠ 0) :
+    DivInv w numer.length (val (2 ^ w) numer) (val (2 ^ w) denom) 0
+      ((List.range (numer.length * w)).reverse.foldl (divStep w numer denom) (zero numer.length, zero numer.length)) := by
+  apply foldl_range_reverse_inv (divStep w numer denom)
+    (DivInv w numer.length (val (2 ^ w) numer) (val (2 ^ w) denom)) (numer.length * w)
+  · intro k a hk hinv
+    exact divStep_inv w hw numer denom hl hn hd hd0 k hk a hinv
+  · have hlt := val_lt _ _ hn
+    rw [← Nat.pow_mul, Nat.mul_comm w] at hlt
+    have h0 : val (2 ^ w) numer / 2 ^ (numer.length * w) = 0 := Nat.div_eq_of_lt hlt
+    refine ⟨zero_length _, zero_length _, zero_wf _ _ (Nat.two_pow_pos w), zero_wf _ _ (Nat.two_pow_pos w), ?_, ?_⟩
+    · show val (2 ^ w) (zero numer.length) = _
+      rw [val_zero, h0, Nat.zero_div, Nat.zero_mul]
+    · show val (2 ^ w) (zero numer.length) = _
+      rw [val_zero, h0, Nat.zero_mod]
+
+/-- ferret_div_mod_u_limbs computes quotient and remainder -/
+theorem divModU_spec (w : Nat) (hw : 0 < w) (numer denom : List Nat) (hl : numer.length = denom.length)
+    (hn : Wf (2 ^ w) numer) (hd : Wf (2 ^ w) denom) (hd0 : val (2 ^ w) denom ≠ 0) :
+    let r := divModU w numer denom
+    r.1 = true ∧ val (2 ^ w) r.2.1 = val (2 ^ w) numer / val (2 ^ w) denom
+      ∧ val (2 ^ w) r.2.2 = val (2 ^ w) numer % val (2 ^ w) denom := by
+  intro r
+  have hz : isZero denom = false := (isZero_eq_false_iff (2 ^ w) (Nat.two_pow_pos w) denom).2 hd0
+  have hr : r = _ := divModU_nonzero w numer denom hz
+  obtain ⟨_, _, _, _, hq, hrem⟩ := divModU_inv w hw numer denom hl hn hd hd0
+  rw [hr]
+  refine ⟨rfl, ?_, ?_⟩
+  · simpa using hq
+  · simpa using hrem
+
+/-- length and well-formedness of the results of ferret_div_mod_u_limbs -/
+theorem divModU_wf (w : Nat) (hw : 0 < w) (numer denom : List Nat) (hl : numer.length = denom.length)
+    (hn : Wf (2 ^ w) numer) (hd : Wf (2 ^ w) denom) :
+    let r := divModU w numer denom
+    r.2.1.length = numer.length ∧ r.2.2.length = numer.length ∧ Wf (2 ^ w) r.2.1 ∧ Wf (2 ^ w) r.2.2 := by
+  intro r
+  cases hz : isZero denom with
+  | true =>
+    have hr : r = (false, zero numer.length, zero numer.length) := by
+      show divModU w numer denom = _
+      simp only [divModU, hz, if_true]
+    rw [hr]
+    exact ⟨zero_length _, zero_length _, zero_wf _ _ (Nat.two_pow_pos w), zero_wf _ _ (Nat.two_pow_pos w)⟩
+  | false =>
+    have hd0 := (isZero_eq_false_iff (2 ^ w) (Nat.two_pow_pos w) denom).1 hz
+    have hr : r = _ := divModU_nonzero w numer denom hz
+    obtain ⟨h1, h2, h3, h4, _, _⟩ := divModU_inv w hw numer denom hl hn hd hd0
+    rw [hr]
+    exact ⟨h1, h2, h3, h4⟩
+
+/-- zero divisor: ok = false and both outputs zero -/
+theorem divModU_zero (w : Nat) (numer denom : List Nat) (hd0 : val (2 ^ w) denom = 0) :
+    divModU w numer denom = (false, zero numer.length, zero numer.length) := by
+  have hz : isZero denom = true := (isZero_iff (2 ^ w) (Nat.two_pow_pos w) denom).2 hd0
+  simp only [divModU, hz, if_true]
+
+theorem divUw_val (w : Nat) (hw : 0 < w) (a b : List Nat) (hl : a.length = b.length)
+    (ha : Wf (2 ^ w) a) (hb : Wf (2 ^ w) b) (hb0 : val (2 ^ w) b ≠ 0) :
+    val (2 ^ w) (divUw w a b) = val (2 ^ w) a / val (2 ^ w) b :=
+  (divModU_spec w hw a b hl ha hb hb0).2.1
+
+theorem modUw_val (w : Nat) (hw : 0 < w) (a b : List Nat) (hl : a.length = b.length)
+    (ha : Wf (2 ^ w) a) (hb : Wf (2 ^ w) b) (hb0 : val (2 ^ w) b ≠ 0) :
+    val (2 ^ w) (modUw w a b) = val (2 ^ w) a % val (2 ^ w) b :=
+  (divModU_spec w hw a b hl ha hb hb0).2.2
+
+/-- division by zero yields zero (both quotient and remainder) -/
+theorem divUw_zero (w : Nat) (a b : List Nat) (hb0 : val (2 ^ w) b = 0) : divUw w a b = zero a.length := by
+  unfold divUw; rw [divModU_zero w a b hb0]
+
+theorem modUw_zero (w : Nat) (a b : List Nat) (hb0 : val (2 ^ w) b = 0) : modUw w a b = zero a.length := by
+  unfold modUw; rw [divModU_zero w a b hb0]
